@@ -36,6 +36,12 @@ type c15Cfg struct {
 	OldMtime bool
 	// LateEvery: before every tick (3 minutes earlier) instance 0 sees a handshake naming yet another new distribution point
 	LateEvery bool
+	// FirstDown (source cdp): the origin refuses connections while the location is seen for the first time; it is up
+	// from then on
+	FirstDown bool
+	// OddCDP > 0: that long after the start instance 0 sees a handshake whose certificate names a distribution point
+	// which cannot be used - a URI with an octet outside ASCII (not valid UTF-8), a second one with an unsupported scheme
+	OddCDP time.Duration
 }
 
 func (c c15Cfg) String() string {
@@ -49,6 +55,12 @@ func (c c15Cfg) String() string {
 	}
 	if c.LateCDP > 0 {
 		late += fmt.Sprintf(" new-cdp-at=+%s", c.LateCDP)
+	}
+	if c.FirstDown {
+		late += " origin-down-at-first-use"
+	}
+	if c.OddCDP > 0 {
+		late += fmt.Sprintf(" unusable-cdp-at=+%s", c.OddCDP)
 	}
 	return fmt.Sprintf("instances=%d intervals=%v phases=%v download=%s script=%q sig=%s background=%v source=%s%s", c.N, c.Intervals, c.Phases, c.Dur, c.Script, sm, c.Background, c.Source, late)
 }
@@ -70,7 +82,7 @@ func c15Run(cfg c15Cfg) (o c15Obs) {
 		}
 	}
 	horizon := 6 * maxI
-	seqWorld(func() {
+	res := seqWorld(func() {
 		net := world.NewNet()
 		var ws []*CW
 		files := FreshDir("c15f")
@@ -144,8 +156,14 @@ func c15Run(cfg c15Cfg) (o c15Obs) {
 			if cfg.Source == "cdp" {
 				// first use makes the location known
 				l, ch := leaf(i, 801)
+				if cfg.FirstDown {
+					net.Down(c15URL(i))
+				}
 				w.Lookup(l, ch)
 				vsched.Drain()
+				if cfg.FirstDown {
+					serve(i)
+				}
 			}
 		}
 		provision(0)
@@ -166,7 +184,7 @@ func c15Run(cfg c15Cfg) (o c15Obs) {
 		B := func(i int) time.Duration { return 2*cfg.Intervals[i] + cfg.Dur*time.Duration(cfg.N) + 5*time.Second }
 		checked := make([]bool, cfg.N)
 		const urlLate = "http://crl.test/late.crl"
-		lateDone := false
+		lateDone, oddDone := false, false
 		lateK := 1
 		for vsched.Now().Before(start.Add(horizon)) {
 			if cfg.LateEvery && !vsched.Now().Before(start.Add(time.Duration(lateK)*cfg.Intervals[0]-3*time.Minute)) {
@@ -183,6 +201,14 @@ func c15Run(cfg c15Cfg) (o c15Obs) {
 				l := world.Leaf(p.CA, bi(812), []string{urlLate}, nil)
 				ws[0].Lookup(l, world.Chain(l, p.CA, p.Root))
 				vsched.Drain()
+			}
+			if cfg.OddCDP > 0 && !oddDone && !vsched.Now().Before(start.Add(cfg.OddCDP)) {
+				oddDone = true
+				for k, u := range []string{"http://crl.test/caf\xe9.crl", "gopher://crl.test/x.crl", "http://crl.test/%zz.crl", "http://[::1/x.crl"} {
+					l := world.Leaf(p.CA, bi(int64(830+k)), []string{u}, nil)
+					ws[0].Lookup(l, world.Chain(l, p.CA, p.Root))
+					vsched.Drain()
+				}
 			}
 			if !published && !vsched.Now().Before(publishAt) {
 				published = true
@@ -246,6 +272,9 @@ func c15Run(cfg c15Cfg) (o c15Obs) {
 			w.Chk.Cleanup()
 		}
 	})
+	if res.Verdict != vsched.OK {
+		o.Viols = append(o.Viols, c14Viol{"C15|" + res.Verdict.String() + "|" + res.PanicSite, firstLines(res.Detail, 6)})
+	}
 	return
 }
 
@@ -274,6 +303,18 @@ func c15Configs(tier string) []c15Cfg {
 	for _, src := range []string{"crl_urls", "cdp"} {
 		for _, bg := range []bool{false, true} {
 			out = append(out, c15Cfg{N: 1, Intervals: []time.Duration{I}, Script: "", Sig: config.SignatureValidationModeVerify, Background: bg, Source: src, LateEvery: true})
+		}
+	}
+	// the origin is down when the distribution point is first seen; distribution points which cannot be used at all
+	for _, sg := range sigs {
+		for _, bg := range []bool{false, true} {
+			for _, sc := range []string{"", "f"} {
+				out = append(out, c15Cfg{N: 1, Intervals: []time.Duration{I}, Script: sc, Sig: sg, Background: bg, Source: "cdp", FirstDown: true})
+			}
+			for _, src := range []string{"crl_urls", "cdp"} {
+				out = append(out, c15Cfg{N: 1, Intervals: []time.Duration{I}, Script: "", Sig: sg, Background: bg, Source: src, OddCDP: I / 2})
+				out = append(out, c15Cfg{N: 2, Intervals: []time.Duration{I, I}, Phases: []time.Duration{time.Second}, Script: "", Sig: sg, Background: bg, Source: src, OddCDP: I / 2})
+			}
 		}
 	}
 	// a crl_file replaced by a newer list whose modification time is older
